@@ -654,6 +654,20 @@ pub fn run_with(cli: Cli, extra: &dyn Fn(&Report)) -> ! {
         }
         rep.set("status_answers_of_graded_length", json!(sweep.len()));
     }
+    // the n-th connection of a process is served like the first (5 000 logins one after the other; the ones around
+    // powers of two and the last are judged)
+    {
+        let keep: Vec<usize> = vec![0, 1, 2, 3, 62, 63, 64, 65, 254, 255, 256, 257, 258, 1022, 1023, 1024, 1025, 4094, 4095, 4096, 4097, 4998, 4999];
+        let many = crate::sim::after_many_connections(5_000, &keep, b"many-connections-secret");
+        for (i, case, obs) in &many {
+            for (aspect, text) in crate::sim::many_connections_faults(*i, case, obs, b"many-connections-secret") {
+                if aspect == "order" {
+                    rep.violation(Violation { key: "replies-to-the-nth-connection".into(), text, replay: json!({"earlier": "many-connections", "index": i}), weight: 9 });
+                }
+            }
+        }
+        rep.set("connections_of_one_process_one_after_the_other", json!(5_000));
+    }
     extra(&rep);
     rep.finish()
 }
